@@ -1,46 +1,53 @@
-(** C02 — exact, complete reclamation.  PARTIAL (see below). *)
-From GA Require Import Model.Spec Proofs.Inv Proofs.InvMark Proofs.InvSweep Proofs.Final Proofs.Phases Proofs.InvWorld Proofs.Safety.
+(** C02 — exact, complete reclamation: unreachable values, including cycles, are collected. *)
+From GA Require Import Model.Spec Proofs.Inv Proofs.InvSweep Proofs.Exact Proofs.ExactWorld Proofs.InvWorld Proofs.Safety.
 Local Open Scope nat_scope.
 
-(** Soundness half (nothing reachable is reclaimed, from any state, any pacing): C01. *)
-Theorem C02_nothing_reachable_reclaimed_partial :
-  forall ops a how fault ar w' r,
+(** From ANY arena state satisfying the invariant (every state of every run does, see below), for
+    every debt oracle: two consecutive finish_cycle calls with no mutation in between leave exactly
+    the strongly reachable values undestructed — every unreachable value, members of unreachable
+    reference cycles included (nothing in the argument counts references), has been destructed,
+    and nothing is retained conservatively. Every other allocation still present is the value-less
+    shell of a destructed object to which a weak pointer held by the root or a reachable object
+    refers. *)
+Theorem C02_exact :
+  forall dec1 dec2 c c1 c2 e1 e2 o1 o2,
+    Inv None c -> quiescent c ->
+    do_collection dec1 c RunStop FinishCycle None = (c1, e1, o1) ->
+    do_collection dec2 c1 RunStop FinishCycle None = (c2, e2, o2) ->
+    (forall x, (exists o, get c2 x = Some o /\ live o = true) <-> reach c x)
+    /\ (forall x o, get c2 x = Some o -> live o = false -> wreach c x).
+Proof. exact exact_two_cycles. Qed.
+Print Assumptions C02_exact.
+
+(** The same at the API level, for every reachable world (any object graph, any phase in which the
+    two calls begin, any history of earlier incremental work, any pacing). *)
+Theorem C02_exact_world :
+  forall ops a ar w1 r1 w2 r2 ar2,
+    cur (run world_init ops) = None ->
     get_arena (run world_init ops) a = Some ar ->
-    step (run world_init ops) (OCollect a how fault) = (w', r) ->
-    forall t, reach (actx ar) t ->
-      exists ar', get_arena w' a = Some ar' /\ exists o, get (actx ar') t = Some o /\ live o = true.
-Proof.
-  intros ops a how fault ar w' r H S t R.
-  destruct (proj2 (collect_safe ops a how fault ar w' r H S) t R) as [ar' [A [_ B]]]. eauto.
-Qed.
-Print Assumptions C02_nothing_reachable_reclaimed_partial.
+    step (run world_init ops) (OCollect a HFinishCycle None) = (w1, r1) ->
+    step w1 (OCollect a HFinishCycle None) = (w2, r2) ->
+    get_arena w2 a = Some ar2 ->
+    (forall x, (exists o, get (actx ar2) x = Some o /\ live o = true) <-> reach (actx ar) x)
+    /\ (forall x o, get (actx ar2) x = Some o -> live o = false -> wreach (actx ar) x).
+Proof. exact exact_two_cycles_world. Qed.
+Print Assumptions C02_exact_world.
 
-(** Marking is exact in the sound direction (everything reachable is black when marking ends) and
-    the sweep starts over the whole list: every object that existed when marking ended is visited. *)
-Theorem C02_sweep_covers_all_partial :
-  forall st hs c f c1 evs k f', loop_body st hs c f = (c1, evs, k, f') ->
-    ph c = Mark -> ph c1 = Sweep -> unsw c1 = all c /\ pre c1 = [].
-Proof.
-  intros st hs c f c1 evs k f' E P P1. unfold loop_body in E. rewrite P in E.
-  destruct (mark_one c _) as [[c2 r] u] eqn:EM. pose proof (mark_one_ph _ _ _ _ _ EM) as P2.
-  destruct r.
-  - inversion E; subst. congruence.
-  - destruct (mark_one_break _ _ _ _ _ EM eq_refl) as [-> _].
-    destruct (stop_le st FullyMarked); inversion E; subst; [congruence|]. cbn. auto.
-  - inversion E; subst. congruence.
-Qed.
-Print Assumptions C02_sweep_covers_all_partial.
+(** A whole cycle started from Sleeping: the shell of a destructed object that no weak pointer of
+    the root or of a reachable object refers to when the cycle starts is released by that cycle. *)
+Theorem C02_shell_release :
+  forall dec c c' evs oc x o,
+    Inv None c -> quiescent c -> ph c = Sleep ->
+    do_collection dec c RunStop FinishCycle None = (c', evs, oc) ->
+    get c x = Some o -> live o = false -> ~ wreach c x -> get c' x = None.
+Proof. exact shell_release. Qed.
+Print Assumptions C02_shell_release.
 
-(** finish_cycle from Sleeping performs a whole cycle and ends Sleeping; from mid-cycle it finishes
-    the current one (C08_finish_cycle). *)
-Theorem C02_finish_cycle_sleeps_partial :
-  forall dec fuel hs c f c' evs, loop dec fuel RunStop FinishCycle hs c f = (c', evs, Done) -> ph c' = Sleep.
-Proof. exact loop_finish_cycle. Qed.
-Print Assumptions C02_finish_cycle_sleeps_partial.
-
-(** MISSING for the full statement: the completeness direction ("every unreachable value has been
-    destructed after two finish_cycle calls; only weakly referenced shells remain and are released by
-    the next full cycle"), i.e. the ghost invariant "during a cycle started from Sleeping with no
-    mutation, only objects reachable from the root are marked". It is evaluated on every
-    implementation trace by the C02 oracle (drop log and Gc count vs. reachability after every pair
-    of consecutive finish_cycle calls, from every starting phase). *)
+Example C02_nonvacuous :
+  (* a two-object reference cycle plus a reachable object: the cycle is reclaimed *)
+  let ops := [OBegin 0 CNew; OMicro (MAlloc 0 KNode 1 0); OMicro (MAlloc 4 KNode 1 0); OMicro (MAlloc 5 KNode 1 0);
+              OMicro (MStore 4 0 (Some 5)); OMicro (MStore 5 0 (Some 4)); OEnd] in
+  exists w1 r1 w2 r2, step (run world_init ops) (OCollect 0 HFinishCycle None) = (w1, r1)
+    /\ step w1 (OCollect 0 HFinishCycle None) = (w2, r2)
+    /\ r_events r1 = [EvDrop 2; EvFree 2; EvDrop 1; EvFree 1] /\ r_events r2 = [].
+Proof. cbv zeta. eexists. eexists. eexists. eexists. split; [vm_compute; reflexivity|]. split; [vm_compute; reflexivity|]. split; reflexivity. Qed.
